@@ -307,6 +307,15 @@ func TestC18_WalletLock(t *testing.T) {
 		if err != nil {
 			t.Fatalf("Serialize unlocked: %v", err)
 		}
+		// unlocking returns a copy: the wallet that was locked stays locked and free of secrets
+		if still, err := w.Serialize(); err != nil || !bytes.Equal(still, locked) {
+			for _, sct := range secrets {
+				if strings.Contains(string(still), sct) {
+					t.Fatalf("%s wallet: after a successful Unlock the serialised form of the still locked wallet contains the secret %q", kind, sct)
+				}
+			}
+			t.Fatalf("%s wallet: Unlock changed the locked wallet it was called on (err=%v):\n before %s\n after  %s", kind, err, locked, still)
+		}
 		if !bytes.Equal(normalizeWalletJSON(before), normalizeWalletJSON(after)) {
 			t.Fatalf("%s: lock+unlock changed the wallet:\n before %s\n after  %s", kind, before, after)
 		}
